@@ -101,7 +101,7 @@ def timeline(calls):
 
 def events_of(text):
     """scenario record from one strace log: metadata + event list"""
-    sc = dict(name=None, kinds=[], assume=[], base=None, final=None, fails=[], events=[], ended=False, ebadf=[], foreign=[])
+    sc = dict(name=None, complete=True, kinds=[], assume=[], base=None, final=None, fails=[], events=[], ended=False, ebadf=[], foreign=[])
     last_open = {}
     pending_close = {}
     owner = {}
@@ -113,7 +113,7 @@ def events_of(text):
             if tag == 'S':
                 sc['name'] = args[0]; inwin = True
             elif tag == 'E':
-                inwin = False; sc['ended'] = True
+                inwin = False; sc['ended'] = True; sc['complete'] = args != ['open']
             elif tag == 'B':
                 sc['base'] = [int(x) for x in args]
                 for fd in sc['base']: owner[fd] = 'e'
@@ -176,7 +176,7 @@ def events_of(text):
             own.pop(fd, None)
     return sc
 
-def op_lines(sc, complete=True):
+def op_lines(sc):
     out = ['S ' + (sc['name'] or '?')]
     out += ['K ' + k for k in sc['kinds']]
     out += list(sc['assume'])
@@ -187,7 +187,7 @@ def op_lines(sc, complete=True):
             out.append('n %s %d' % (t, ev['fd']))
         else:
             out.append('%s %s %d' % (ev['who'], t, ev['fd']))
-    out.append('E ' + ('complete' if complete else 'open'))
+    out.append('E ' + ('complete' if sc.get('complete', True) else 'open'))
     return out
 
 def run_scenario(binary, name, seed, wd, churn=True, timeout=60):
